@@ -65,6 +65,7 @@ for v in res['violations']:
     again = replay([b], 'repro')
     if not [x for x in again['violations'] if x['signature'] == v['signature']]:
         c.unreproduced('violation %s not reproduced on a second run' % v['signature'])
+        continue
     c.report(v['signature'], v['detail'], {'behaviour': b, 'harness': 'stor/segapi'})
 
 # ---- 2b. design at the granularity of every atomic operation (incRef fast/slow path, DecRef with the pending
@@ -140,6 +141,7 @@ for sig, (detail, ctx) in found.items():
             break
     if not again:
         c.unreproduced('concurrency violation %s seen once but not again in 6 further runs: %s' % (sig, detail))
+        continue
     c.report(sig, detail, {'trace_tail': ctx, 'harness': 'stor/segstress'})
 c.log('concurrent runs: %d traces accepted, %d events, %s' % (straces, sevents, sstats))
 
